@@ -8,7 +8,7 @@ From SZ Require Import Base.Values Sync.Nodes Base.MiniPy.
 From SZ Require Sync.NodeSem2.
 From SZ Require Import Gen.KN_accumulate Gen.KN_map Gen.KN_filter Gen.KN_starmap Gen.KN_pluck Gen.KN_union Gen.KN_Stream.
 From SZ Require Import Gen.KN_flatten Gen.KN_partition Gen.KN_sliding_window Gen.KN_unique Gen.KN_collect Gen.KN_slice.
-From SZ Require Import Gen.KN_combine_latest Gen.KN_zip_latest Gen.KN_partition_unique.
+From SZ Require Import Gen.KN_combine_latest Gen.KN_zip_latest Gen.KN_partition_unique Gen.KN_zip.
 From SZ Require Import Sync.Pipeline.
 Import ListNotations.
 Close Scope Z_scope.
@@ -668,3 +668,49 @@ Proof.
       (destruct (length _ =? n); intros E; injection E as <-; cbn; intros H;
        repeat (destruct H as [H|H]; [try discriminate; injection H as <-; cbn [st_keyed set_keyed]; auto|]); destruct H).
 Qed.
+
+(* ---- zip: update and the inlined _emit_tuple; pack_literals is the model's (not translated); the backpressure
+        (maxsize, condition) takes no step in the synchronous model.  Side condition: the port is an upstream. ----------- *)
+Lemma nth_set_nth_same {A} p (a d : A) l : p < length l -> nth p (set_nth p a l) d = a.
+Proof. revert p. induction l as [|h t IH]; intros [|p] H; cbn in *; try lia; [reflexivity|]. apply IH. lia. Qed.
+Lemma forallb_truthy {A} (B : list (list A)) : forallb truthy_list B = forallb (fun b => negb (length b =? 0)) B.
+Proof. induction B as [|[|a b] t IH]; cbn; [reflexivity|reflexivity|exact IH]. Qed.
+
+Lemma mapM_heads (body : nat -> M nstate (val * md)) :
+  (forall up s, body up s = match nth_error (nth up (st_ports s) []) 0 with Some h => Ok h s [] | None => Err [] end) ->
+  forall B pre s, st_ports s = pre ++ B -> forallb truthy_list B = true ->
+  mapM body (seq (length pre) (length B)) s = Ok (map (hd (VNone, [])) B) s [].
+Proof.
+  intros Hb. induction B as [|b B IH]; intros pre s Hs Ha; [reflexivity|].
+  cbn [length seq mapM]. cbn [forallb] in Ha. apply andb_true_iff in Ha as [Hb1 Ha].
+  rewrite bind_unfold, Hb, Hs. rewrite app_nth2 by lia. rewrite Nat.sub_diag. cbn [nth].
+  destruct b as [|h b]; [discriminate|]. cbn [nth_error].
+  rewrite bind_unfold.
+  replace (S (length pre)) with (length (pre ++ [h :: b])) by (rewrite app_length; cbn; lia).
+  rewrite IH; [reflexivity| |exact Ha]. rewrite Hs, <- app_assoc. reflexivity.
+Qed.
+
+Theorem bridge_run_zip lits maxsize s p x m : p < length (st_ports s) ->
+  gen_run_zip lits maxsize s p x m = of_option (update (KZip lits) s p x m).
+Proof.
+  intros Hp. unfold gen_run_zip, gen_body_zip. cbn [update].
+  unfold zip_buffers_getitem, zip_buffers_item_append, zip_buffers_values, zip_buffers_each_popleft, zip_upstreams.
+  destruct s as [acc cnt det keyed win seen ports last]. cbn [st_ports] in Hp. pyr.
+  set (L := nth p ports [] ++ [(x, m)]). set (B := set_nth p L ports).
+  unfold B at 1. rewrite (nth_set_nth_same p L [] ports Hp). fold B.
+  rewrite forallb_truthy.
+  destruct ((length L =? 1) && forallb (fun b => negb (length b =? 0)) B) eqn:C; pyr.
+  - apply andb_true_iff in C as [_ C]. rewrite <- forallb_truthy in C.
+    rewrite bind_unfold.
+    match goal with |- context [mapM ?f (seq 0 (length B)) ?st] =>
+      assert (Hf : forall up s, f up s = match nth_error (nth up (st_ports s) []) 0 with Some h => Ok h s [] | None => Err [] end)
+        by (intros up s0; pyr; destruct (nth_error (nth up (st_ports s0) []) 0); reflexivity);
+      pose proof (mapM_heads f Hf B [] st eq_refl C) as Hm; change (length (@nil (list (val * md)))) with 0 in Hm; rewrite Hm end.
+    pyr. rewrite bind_unfold. unfold wr_get at 1. cbn [st_ports set_ports]. rewrite C. pyr. unfold unzip_pairs. cbn [fst snd]. rewrite flatten_md_map_snd.
+    destruct lits as [|l lits]; pyr; reflexivity.
+  - destruct (maxsize <? length (nth p B [])); reflexivity.
+Qed.
+
+Theorem bridge_update_zip lits maxsize s p x m : p < length (st_ports s) ->
+  gen_update_zip lits maxsize s p x m = update (KZip lits) s p x m.
+Proof. intros H. apply weaken, bridge_run_zip, H. Qed.
